@@ -104,6 +104,7 @@ type c19Case struct {
 	strace     string // "", "openat-eacces", "write-enospc"
 	outIsDir   bool   // the output file path already exists as a directory
 	outIsInput bool   // the output path of one of the targets is the input file
+	outLink    string // when set: the -o argument is this symbolic link, which points to outDir
 	staleTwin  bool   // the stale outputs have the size of the new outputs and are newer than the input
 	invoke     string // "" = absolute path of the binary, "path" = bare name found through PATH, "symlink" = through a symbolic link in the work directory, "relative" = relative path from a sub directory
 	badArgs    []string // complete argument list for bad-option cases (placeholders IN, OUT)
@@ -184,7 +185,11 @@ func checkC19(c *Check) {
 				od = "."
 			}
 			cases = append(cases, c19Case{key: fmt.Sprintf("output-is-input/%s/in=%s/t=%s", p.name, hexKey(c2.in), strings.Join(c2.ts, "+")), prog: p, inputName: c2.in, outDir: od, targets: c2.ts, argOrder: "iot", outIsInput: true})
-			// a hard link or symbolic link to the input standing at the output path is the input as well
+			// the same with the output directory reached through a symbolic link (and through a path with a detour)
+			if od == "out" {
+				cases = append(cases, c19Case{key: fmt.Sprintf("output-is-input-through-link/%s/in=%s/t=%s", p.name, hexKey(c2.in), strings.Join(c2.ts, "+")), prog: p, inputName: c2.in, outDir: od, targets: c2.ts, argOrder: "iot", outIsInput: true, outLink: "out-link"})
+				cases = append(cases, c19Case{key: fmt.Sprintf("output-is-input-through-detour/%s/in=%s/t=%s", p.name, hexKey(c2.in), strings.Join(c2.ts, "+")), prog: p, inputName: c2.in, outDir: od, targets: c2.ts, argOrder: "oti", outIsInput: true, outLink: "DETOUR"})
+			}
 		}
 	}
 	// what stands at the output paths looks up to date (size of the output to come, younger than the input)
@@ -347,6 +352,13 @@ func c19Run(c *Check, cs c19Case, straceOK bool) {
 		outArg := outRel
 		if strings.HasPrefix(cs.outDir, "ABS:") {
 			outArg = outAbs
+		}
+		if cs.outLink == "DETOUR" {
+			outArg = "dir/../" + outRel + "/./"
+			os.MkdirAll(filepath.Join(work, "dir"), 0o755)
+		} else if cs.outLink != "" {
+			os.Symlink(outRel, filepath.Join(work, cs.outLink))
+			outArg = cs.outLink
 		}
 		for _, o := range []byte(cs.argOrder) {
 			switch o {
